@@ -57,6 +57,22 @@ def check_rep(ctx: Ctx, c: Dict[str, Any]) -> None:
                     bad("default axes", f"{how} on a grid with align_corners={gflag.align_corners()} is labelled {ff_.axes().value}, expected {want_ax.value}", how=how, grid_ac=gflag.align_corners())
         except Exception as ex:
             bad("default axes", f"raised {type(ex).__name__}: {str(ex)[:100]}", exc=type(ex).__name__)
+    # whole-number vectors stored with an INTEGER dtype convert like the same numbers in floating point
+    try:
+        iv = torch.tensor([2, -1, 3][:D], dtype=torch.int64).reshape(1, D, *([1] * D)).expand(1, D, *g.shape).contiguous()
+        for a in AXES:
+            for b in AXES:
+                if a == b:
+                    continue
+                fi = FlowFields(iv, g, Axes(a)).axes(Axes(b)).tensor()
+                ff_ = FlowFields(iv.float(), g, Axes(a)).axes(Axes(b)).tensor()
+                if not fi.dtype.is_floating_point or max_err(fi.double(), ff_.double()) > TOL * max(1.0, float(ff_.abs().max())):
+                    bad("FlowFields.axes[int64 data]", f"{a} -> {b} of an integer-typed field gives {fi.reshape(D, -1)[:, 0].tolist()} ({fi.dtype}), the same field in float32 gives {ff_.reshape(D, -1)[:, 0].tolist()}", frm=a, to=b)
+                    raise StopIteration
+    except StopIteration:
+        pass
+    except Exception as ex:
+        bad("FlowFields.axes[int64 data]", f"raised {type(ex).__name__}: {str(ex)[:100]}", exc=type(ex).__name__)
     for a in AXES:
         f = FlowFields(const_field(g, reps[a]), g, Axes(a))
         for b in AXES:
